@@ -141,7 +141,17 @@ def main():
                 seg = next((s_ for s_ in u.segments if s_['name'] == fnname and s_['kind'] == 'verify'), None)
                 if seg is None:
                     still.append(fnname); continue
-                rr = U.run_verus(u, timeout=900, extra=['--verify-root', '--verify-function', seg['fn'], '--rlimit', '100'])
+                # the function may carry its own #[verifier::rlimit(n)] attribute, which overrides the command line: the re-run
+                # uses a copy of the unit in which that attribute is multiplied by 10 (same line numbers)
+                import copy
+                u2 = copy.copy(u)
+                lines = u.text.split('\n')
+                for ln in range(seg['gline0'] - 1, min(seg['gline1'], len(lines))):
+                    lines[ln] = re.sub(r'#\[verifier::rlimit\((\d+)\)\]', lambda m: '#[verifier::rlimit(%d)]' % (int(m.group(1)) * 10), lines[ln])
+                u2.path = u.path[:-3] + '_rerun.rs'
+                with open(u2.path, 'w') as f2:
+                    f2.write('\n'.join(lines))
+                rr = U.run_verus(u2, timeout=1500, extra=['--verify-root', '--verify-function', seg['fn'], '--rlimit', '100'])
                 checker_cmds.append(rr['cmd'])
                 defin = [d for d in rr['diags'] if d['owner'] == fnname and d['owner_kind'] == 'verify']
                 if rr['frontend_errors'] or rr['timed_out'] or [d for d in rr['undecided'] if d['owner'] == fnname]:
